@@ -30,7 +30,7 @@ CHECKS = {
         'text': 'All 120 target-kind sequences of length 1..4 over {alias, bare column, expression} x hidden GROUP BY / HAVING / ORDER BY configurations (0-3 hidden targets, before/after in clause order) with '
                 'expressions printed in 8 parenthesisation x spelling modes; duplicate names; `*` and named targets on 13 table kinds (postings, entries, typed directive tables, accounts, commodities, null '
                 'table, harness tables, sub-queries): description length = number of SELECT targets, every row has that length, name = alias / column name / a slice of the statement text that parses back '
-                'to the target expression, hidden expressions appear nowhere, `*` = the published wildcard columns in declaration order.',
+                'to the target expression, hidden expressions appear nowhere, `*` = the published wildcard columns in declaration order. Round j: respelled sequences (the same AST in another spelling on the same connection must be named from its own text); value alignment: the k-th value of each row is the value of the k-th described column, for 1-4 columns under every name partition, directly and through FROM sub-queries.',
         'note': 'Trusted: vt/unparse.py. BALANCES/JOURNAL/PIVOT names not generated; duplicate names never combined with positional references.',
     },
     'C05': {
@@ -42,7 +42,7 @@ CHECKS = {
                 'snapshot of 237 signatures is the lower bound). (b) 508k statements: 21 target kinds x 5 WHERE x 16 GROUP BY x 4 HAVING x 12 ORDER BY core product, every other dimension (15 FROM forms incl. '
                 'OPEN/CLOSE orders, 9 PIVOT BY, COALESCE, IN arity, parameters, duplicate names, DISTINCT, LIMIT) crossed with a reduced core: accepted iff all rules of the property hold; accepted '
                 'statements are executed. (c) 15k texts: all token sequences of length <= 2 over 52 tokens, all single-token edits of a 42-statement corpus, literal edge cases. Every rejection must be '
-                'ParseError / CompilationError / ProgrammingError and every error location a valid span rendered by the shell (thorough: 8.2M cases).',
+                'ParseError / CompilationError / ProgrammingError and every error location a valid span rendered by the shell (thorough: 8.2M cases). Round j: integer literals at the text-length boundary of the conversion (4300 / 4301 digits, zero-padded).',
         'note': 'Trusted: vt/ref/typing.py. Operand tuples where exact-type and MRO overload resolution differ (bool, amount-like, NULL literal) are checked for the exception class only. Parameter container kind and invalid regular expressions are outside.',
     },
     'C14': {
@@ -52,7 +52,7 @@ CHECKS = {
         'text': 'All 79 ledgers with <= 2 posting-producing snippets (+ 4 extra ledgers: feature-rich, long text, zero-cost lots) x 348 BALANCES and 783 JOURNAL statements (summary function none/units/cost x 29 FROM forms incl. 15 '
                 'OPEN/CLOSE/CLEAR subsets x WHERE conditions / 9 account patterns incl. quotes, case variation, no match): rows and datatypes equal the SELECT expansion, the account order equals '
                 'beancount account-type order, sums and running balances equal direct Inventory folds; all 379 ledgers with <= 2 of 27 snippets x 57 PRINT FROM forms over every directive type: the emitted '
-                'text equals beancount\'s printer on the entries selected by an independent predicate, and reloading it yields equal directives (thorough: n <= 4 / n <= 3, 3.3M statements).',
+                'text equals beancount\'s printer on the entries selected by an independent predicate, and reloading it yields equal directives (thorough: n <= 4 / n <= 3, 3.3M statements). Round j: BALANCES / JOURNAL / PRINT with positional and named query parameters in FROM and WHERE, equal to the literal statement and to the parameterised SELECT expansion.',
         'note': 'Trusted: beancount printer/loader/account_types. Column names of BALANCES/JOURNAL not compared; PRINT round trip only for ledgers without pad/plugin and filters keeping lot reductions with their augmentations.',
     },
     'C20': {
@@ -62,7 +62,7 @@ CHECKS = {
         'text': '17 statements (balance twice per row, multi-argument function calls with a scheduling point between their arguments, statements given as text, scheduling points inside parsing and compilation, aggregates, IN- and FROM-subqueries, shared parsed statements with named/positional parameters, #entries, OPEN/CLOSE, harness table) x 3 '
                 'configurations (one shared connection, separate connections over the same entries, different ledgers): ALL interleavings of the yield points (a harness BQL function between '
                 'sub-expressions, between the arguments of one call and in WHERE, a harness table iterator, parser and compiler actions) for all 55 pairs of the 10 core statements, the text-statement pairs and 28 FROM-qualified / BALANCES / JOURNAL / same-overload pairs; <= 2 preemptions for 28 (quick) / all 220 (thorough) triples; thorough adds sys.settrace line granularity '
-                '(1 preemption for all pairs, 2 for the pairs touching shared state). Oracle: every thread obtains exactly its serial rows and description; no deadlock; failing schedules replay identically.',
+                '(1 preemption for all pairs, 2 for the pairs touching shared state). Oracle: every thread obtains exactly its serial rows and description; no deadlock; failing schedules replay identically. Round j: the harness runs as an application with its own SIGINT handler; a statement failing alone in a worker thread but not in the main thread is a violation.',
         'note': 'Trusted: CPython threading primitives used by the baton. Preemption inside one source line and CPython-internal races are not modelled; a racy canary table proves the explorer is not vacuous on every run.',
     },
     'C04': {
@@ -73,7 +73,7 @@ CHECKS = {
                 'set, list, dict, object) and bool for int slots, on tables holding the full product of the column alphabets; depth 2: every column slot of every such program replaced by every depth-1 '
                 'producer whose ANNOUNCED datatype is the slot type (35k programs); every attribute path of every structured type, dict subscripts, implicit casts of object operands, FROM/IN subquery '
                 'columns, COALESCE with a NULL literal at every position, the row-context functions over nullable arguments; `*` and all columns of every table over the ledger family (n <= 1 quick, <= 2 thorough), for the postings table also under 5 OPEN / CLOSE / CLEAR qualifiers (synthesised rows). Invariants: every cell is NULL or an instance of the announced datatype, no '
-                'non-data exception escapes execute, render_text / render_csv / numberify accept the result.',
+                'non-data exception escapes execute, render_text / render_csv / numberify accept the result. Crash fingerprints carry the argument types of the failing function so that an open finding on one overload cannot hide a failure on another.',
         'note': 'Trusted: beancount data model. Data errors (ValueError, ArithmeticError, re.error, KeyError, IndexError) are not type errors: failing rows are isolated and dropped. Open known findings: '
                 'min/max over unorderable values, truth value of Inventory. Membership of amount-like values in collections of foreign element types is outside (beancount equality raises).',
     },
@@ -84,7 +84,7 @@ CHECKS = {
         'text': 'ALL ledgers of <= 3 (quick: 713 bookable) / <= 4 (thorough: 5,864) transactions over 9 templates (two currencies, lots at cost with dates, a lot at zero cost, partial sales, conversions, expenses) with '
                 'terminating exchange rates x WHERE/FROM selections x groupings x {units, cost, value, value@date, convert USD/EUR with/without date, convert with lower-/mixed-case currency}: sum() equals the beancount Inventory fold, f(sum(x)) '
                 '== sum(f(x)), partition sums add up to the total, and the running balance equals the prefix sum however many times (0-3) and wherever the targets reference it, with an intervening '
-                'nested scan consulting balance, and with balance in WHERE.',
+                'nested scan consulting balance, and with balance in WHERE. Round j: every ledger also with a price map whose latest rate of every pair is exactly zero.',
         'note': 'Trusted: beancount Inventory/convert/prices. Balance-in-WHERE cases only where the balance term is evaluated on every scanned row.',
     },
     'C13': {
@@ -94,7 +94,7 @@ CHECKS = {
         'text': '20 (quick) / 300 (thorough) ledgers of the C12 family, most feature-rich first, x every pair of dates d <= e out of {before the span, each entry date, each entry date + 1, after the span} '
                 'x all 12 clause shapes (CLOSE with and without date) x FROM filters x SELECT / BALANCES / JOURNAL / PRINT, plus d > e: originals inside [d, e) returned unchanged and in order, '
                 'balance-sheet totals equal balances as of e in the full ledger, income statement carries only activity since d and clears to zero, every returned transaction balances (also on the returned weight column, which equals get_weight of beancount for every returned row), filter '
-                'independence of the clause order, d > e rejected at compile time.',
+                'independence of the clause order, d > e rejected at compile time. Round j: the clauses of a FROM apply to that FROM only: IN sub-queries with their own FROM (filter, OPEN, CLOSE, CLEAR) inside SELECT and BALANCES under every clause configuration, against the sub-query run on its own.',
         'note': 'Trusted: beancount data model and interpolate; the oracle never calls beancount.ops.summarize. beanquery.parser.parse is memoised by text inside the check (BALANCES/JOURNAL re-parse a template on every compile).',
     },
     'C09': {
@@ -106,7 +106,7 @@ CHECKS = {
                 'literals (textual order for positional) and the reference interpreter. (2) Every depth<=2 expression of the C01 enumerator x ALL non-NULL constant assignments: folded value and announced '
                 'datatype equal per-row evaluation from a one-row table and the reference. (3) ALL 24^d histories (d <= 3 quick, <= 4 thorough) of executions on one connection (shared parsed statements with '
                 'other parameters, executemany, aggregate, PIVOT, IN/FROM subqueries, balance twice, OPEN/CLOSE, failing statement, second cursor, regex functions sharing a pattern, PRINT, #entries, a shell session running a named query, the same text through the API, sum/first/last over a user table of persistent Inventory objects, three FROM-subquery statements of different shapes): every step equals the fresh-connection outcome and the source '
-                'data is unchanged.',
+                'data is unchanged. Round j: every result of a history is held and read again after all later executions; the regex events share pattern texts between case-sensitive functions and case-insensitive matches on data where case matters.',
         'note': 'Trusted: vt/ref/select.py, vt/ref/expr.py. Histories are not merged by state (no abstraction argument needed); pristine statements per history are deep copies of freshly parsed ASTs.',
     },
     'C16': {
@@ -116,7 +116,7 @@ CHECKS = {
         'text': 'Every column of <= 3 cells for each of 12 datatypes over alphabets with NULL, negatives, differing precision, several currencies, empty and multi-lot inventories x all 128 combinations of '
                 'boxed/unicode/spaced/expand/narrow/nullvalue/list separator; all 144 ordered datatype pairs (quick: a strength-3 orthogonal array of 16 option runs; thorough: all 128); the empty result. '
                 'Invariants on the emitted text: equal line widths, cells inside the column spans read off the rule line, header centred / cut only in narrow mode, NULL placeholder, extra lines only with '
-                'expand and never fewer than one, decimal-point alignment, read-back of every cell to its value; CSV: header + one record per expanded row, field == text cell, output independent of the text-only options.',
+                'expand and never fewer than one, decimal-point alignment, read-back of every cell to its value; CSV: header + one record per expanded row, field == text cell, output independent of the text-only options. Round j: every table also through the registered text format entry point (beanquery.render.text.render) with the options handed over as the shell does.',
         'note': 'Trusted: vt/ref/render.py (cell reader). Weakest readings listed in the evidence assumptions (centring within 1 blank, scientific notation exempt from alignment, unknown currencies outside).',
     },
     'C17': {
@@ -125,7 +125,7 @@ CHECKS = {
         'design_ref': 'DESIGN.md section 4, C17',
         'text': 'Every Amount/Position/Inventory column of <= 3 (quick) / <= 4 (thorough) cells over {NULL, 1-2 of 3 currencies, zero amounts, multi-lot and empty inventories} in three layouts with plain columns, '
                 'and all two- (thorough: three-) column combinations of <= 2 rows, without a formatter, with the default one and with Precision.MAXIMUM over a display context of mixed digit counts: other columns/rows/order untouched, one `name (CUR)` decimal column per currency in '
-                'non-increasing frequency, each cell = sum of units over lots (quantised with a formatter) or NULL/0 when absent, no non-zero currency dropped; run_query(numberify=True) equals numberify_results of the API result on the sample ledger.',
+                'non-increasing frequency, each cell = sum of units over lots (quantised with a formatter) or NULL/0 when absent, no non-zero currency dropped; run_query(numberify=True) equals numberify_results of the API result on the sample ledger. Round j: one currency with and without cost in one inventory, numbers >= 1000, a formatter from a ledger with render_commas.',
         'note': 'Trusted: beancount Inventory/Amount. Tie order among equally frequent currencies is free; frequency read as rows or lots.',
     },
     'C08': {
@@ -164,7 +164,7 @@ CHECKS = {
         'text': 'The product (real batch-mode BQLShell settings by value, model) closes at 768 states (2^7 booleans x 2 formats x 3 nullvalues); in EVERY state 101 events (all assignment spellings, invalid '
                 'values, unknown names incl. attributes of the settings object, wrong arity, legacy commands, unknown commands, .tables/.describe/.run) are executed; all sessions of <= 3 steps over two named queries of identical text and different dates and the same text typed on the real shell and compared with the '
                 'model (output, state unchanged on error, successors inside the closed set); statements / .run / .explain are compared with the renderers called directly in the 55 states near the default '
-                '(quick) or all 768 (thorough); the CLI entry point is run for all 128 combinations of -f x -m x -o x -q x ledger {clean, with errors} x spellings.',
+                '(quick) or all 768 (thorough); the CLI entry point is run for all 128 combinations of -f x -m x -o x -q x ledger {clean, with errors} x spellings. Round j: numbers off the display precision (numberify quantisation visible); all sessions of 1..2 (thorough 1..3) commands writing to an output file other than stdout.',
         'note': 'Trusted: renderers, numberify and Connection.execute are the yardstick (the property compares the shell with them). Interactive mode, pager, readline are outside. Default CLOSE date is only claimed for SELECT with a FROM clause.',
     },
     'C01': {
@@ -185,7 +185,7 @@ CHECKS = {
         'text': 'ALL row sequences of length <= 3 (quick) / <= 4 (thorough) over a 9-letter (k, v) row alphabet with NULLs, for value types int, Decimal, str, date, bool, and over an 18-letter '
                 '(k, m, v) alphabet for two-key statements, x 14 one-key and 9 two-key grouping forms (by column, alias, index, hidden, implicit, none, key expressions, repeated keys, key '
                 'order) x aggregate lists (all 18 at once and each alone, arithmetic over aggregates) x WHERE x HAVING menus, HAVING x LIMIT without ORDER BY, every grouping shape without aggregates, aggregates over tables whose row objects are falsy; group-wise count/sum vs ungrouped totals differential; and every '
-                'ordered pair of hashable columns of every Beancount-backed table kind (hidden keys, alias + hidden key, uncovered target rejected).',
+                'ordered pair of hashable columns of every Beancount-backed table kind (hidden keys, alias + hidden key, uncovered target rejected). Round j: a key expression whose alias coincides with a table column (GROUP BY k = the target named k).',
         'note': 'Trusted: vt/ref/select.py + vt/ref/expr.py. sum(bool) compared by numeric value. The table-kind sweep partitions the rows returned by the non-aggregate SELECT c1, c2.',
     },
     'C03': {
@@ -204,7 +204,7 @@ CHECKS = {
         'design_ref': 'DESIGN.md section 4, C11',
         'text': 'Every ledger with <= 3 (quick: 3,304 ledgers) / <= 4 (thorough: 20,854) body directives over an alphabet covering every directive type, costs, prices, tags, links, metadata of '
                 'all nine value types on entries and postings, pads (also in the legacy meta-less shape) and plugin-generated meta-less postings, x 10 tables x every column alone, all together and '
-                '`*`, x the metadata / open / close functions for present and absent keys, x structured attribute paths; every cell compared with a reference traversal (vt/ref/ledger.py).',
+                '`*`, x the metadata / open / close functions for present and absent keys, x structured attribute paths; every cell compared with a reference traversal (vt/ref/ledger.py). Round j: an extra ledger with falsy metadata values (0, 0.00, FALSE, "", NULL) on every level and mixed-case keys with lower-case twins; subscripts x[k] over every dictionary-valued expression for every key.',
         'note': 'Trusted: beancount loader and data model, vt/ref/ledger.py. Weakest readings: any_meta with explicit NULL, cost_label without cost (NULL or empty string), posting vs transaction '
                 'line numbers, accounts/commodities rows matched by key.',
     },
